@@ -13,7 +13,7 @@ NOTE_COMMON = ("Trusted base: Hypothesis' generators/shrinker, the harness' rule
 
 CHECKS = {
     'C01': dict(
-        technique="Hypothesis property-based testing: generated rulesets x flags, exact-rational product oracle, order invariant, determinism replay (in-process and subprocess with other hash seeds)",
+        technique="Hypothesis property-based testing: generated rulesets x flags, exact-rational product oracle, order invariant, determinism replay (in-process and subprocess with other hash seeds); scale part: 59 049 base structures (a queue of more than 50 000 entries), i-th emitted == i-th largest probability",
         text=("Generated-input search: synthetic rulesets (ties, dyadic/denormal probabilities, repeated types, single-entry "
               "variables, duplicate structures, Markov anywhere) x 6 flag sets are loaded by the real loader and the real "
               "priority queue is drained; every adjacent pair is checked on the tool's own floats, every attached "
@@ -21,7 +21,7 @@ CHECKS = {
               "against runs in other processes with different hash seeds. Exploration, not proof."),
         design='4/C01'),
     'C02': dict(
-        technique="Hypothesis property-based testing + exhaustive small-scope enumeration of tie patterns; model-side product-set oracle (multiset equality) and a per-pop frontier invariant on the real heap",
+        technique="Hypothesis property-based testing + exhaustive small-scope enumeration of tie patterns; model-side product-set oracle (multiset equality) and a per-pop frontier invariant on the real heap; scale part shared with C01 (59 049 base structures)",
         text=("Generated rulesets x flags: the multiset of pre-terminals popped from the real queue must equal the model's product "
               "set (nothing missing, nothing twice); after every pop no pre-terminal may be in emitted+heap more often than its "
               "structure occurs; small cases are expanded and the Counter of guesses compared with the model language. An "
@@ -29,7 +29,7 @@ CHECKS = {
               "pools, with repeated types and duplicated structures. Exploration; the grid sub-part is exhaustive for its finite scope."),
         design='4/C02'),
     'C04': dict(
-        technique="Hypothesis property-based testing: every pre-terminal of a generated ruleset is expanded by the real guesser with stdout captured and compared (Counter) with a model-side expansion; Markov levels against an independent OMEN enumerator; every pre-terminal also under drawn guess limits (reported count == lines written)",
+        technique="Hypothesis property-based testing: every pre-terminal of a generated ruleset is expanded by the real guesser with stdout captured and compared (Counter) with a model-side expansion; Markov levels against an independent OMEN enumerator; every pre-terminal also under drawn guess limits (reported count == lines written); scale part: one group of up to 300 007 values",
         text=("Generated rulesets (groups of any size, all U/L masks, adjacent alpha words, alpha at start/middle/end, spaces, "
               "non-ASCII and non-BMP values, Markov levels incl. tied probabilities): for every pre-terminal of the model the lines "
               "written by the real create_guesses must equal the model's product of groups with masks applied, the returned count "
@@ -70,7 +70,7 @@ CHECKS = {
               "pre-terminals tied with a saved position may repeat. Exploration; every position of each generated run is enumerated."),
         design='4/C15'),
     'C14': dict(
-        technique="Hypothesis property-based testing with a metamorphic oracle (flagged run vs. filtered/rescaled default run of the same real guesser) plus model-side all-lower language; flags through save/restore via the real main(); neighbour sessions with other flags under related session names",
+        technique="Hypothesis property-based testing with a metamorphic oracle (flagged run vs. filtered/rescaled default run of the same real guesser) plus model-side all-lower language; flags through save/restore via the real main(); neighbour sessions with other flags under related session names; base lists of up to 1500 lines with the Markov line anywhere",
         text=("Generated rulesets with the Markov structure at any position, absent or alone, under all four flag combinations: the "
               "skip_brute run must equal the default run minus Markov pre-terminals, same order modulo mathematically tied "
               "probabilities, rescaled by 1/(1-P(Markov)) (identity without a Markov structure; nothing for Markov-only); "
@@ -79,7 +79,7 @@ CHECKS = {
               "flagged run's pre-terminals and language. Exploration."),
         design='4/C14'),
     'C16': dict(
-        technique="Hypothesis property-based testing with scripted uniform draws: breakpoint sweep of the piecewise-constant sampler against exact cumulative sums, scripted in-group choices, end-to-end language/limit/reproducibility checks (in-process and CLI); CLI runs with --load histories, named sessions and different hash seeds, incl. rulesets that list a value twice; same draws after different earlier walks select the same derivation (hand-pruned terminal lists included)",
+        technique="Hypothesis property-based testing with scripted uniform draws: breakpoint sweep of the piecewise-constant sampler against exact cumulative sums, scripted in-group choices, end-to-end language/limit/reproducibility checks (in-process and CLI); CLI runs with --load histories, named sessions and different hash seeds, incl. rulesets that list a value twice; same draws after different earlier walks select the same derivation (hand-pruned terminal lists included); scale part: base lists of 3000 / 12 000 structures",
         text=("The random source seen by the sampler is replaced by a script, so the draw can be placed exactly on, one ulp around and "
               "between every cumulative-probability breakpoint of the base list and of every variable of generated count-normalised "
               "rulesets (and of sub-normalised base lists): the selected structure/group must be the interval containing the draw, "
@@ -88,7 +88,7 @@ CHECKS = {
               "reproduce itself in-process and across CLI processes. Exploration."),
         design='4/C16'),
     'C17': dict(
-        technique="Hypothesis property-based testing: real prince_ling.main() unbounded / to a file / with every --size N, against a model-side language of (type, value, capitalisation) with exact-rational probabilities; metamorphic size-N == prefix(N); CLI byte comparison; prince_ling.py as a subprocess under generated invocation contexts (relative / absolute -o, existing output files); tied PRINCE types compared across processes with different hash seeds",
+        technique="Hypothesis property-based testing: real prince_ling.main() unbounded / to a file / with every --size N, against a model-side language of (type, value, capitalisation) with exact-rational probabilities; metamorphic size-N == prefix(N); CLI byte comparison; prince_ling.py as a subprocess under generated invocation contexts (relative / absolute -o, existing output files); tied PRINCE types compared across processes with different hash seeds; scale part: word lists of more than 1 MiB",
         text=("Generated rulesets with a PRINCE base list (all terminal types incl. e-mail/website), both all_lower settings: the "
               "unbounded list must be the model language with one word per derivation in non-increasing model probability, the "
               "file written with --output must be byte-identical to stdout, and --size N must give exactly the first N words for "
@@ -123,7 +123,7 @@ CHECKS = {
               "counters must change by exactly the tallies of those segments. Exploration."),
         design='4/C05'),
     'C19': dict(
-        technique="Hypothesis-generated training files (bytes) against a reference line reader (differential), metamorphic relation plain == $HEX == count-prefixed on rulesets produced by the real trainer, equality of the three passes, marker-based leak detection; trainer.py as a subprocess for every rendering under generated invocation contexts (strict-UTF-8 stdout)",
+        technique="Hypothesis-generated training files (bytes) against a reference line reader (differential), metamorphic relation plain == $HEX == count-prefixed on rulesets produced by the real trainer, equality of the three passes, marker-based leak detection; trainer.py as a subprocess for every rendering under generated invocation contexts (strict-UTF-8 stdout); scale part: lists of 300 000 / 1.2 M lines through the reader",
         text=("Training files are generated as bytes in five encodings with plain/hex/count-prefixed renderings, CRLF, look-alikes, "
               "spaces and junk lines (tabs, control and separator characters, undecodable bytes, bad hex, missing passwords): the real "
               "reader's yielded sequence and counters must equal a reference reader's; the real trainer run on the three equivalent "
@@ -147,7 +147,7 @@ CHECKS = {
               "the probabilities of all emitted guesses must sum to 1. Exploration, bounded to languages of 40000 guesses."),
         design='4/C03'),
     'C07': dict(
-        technique="Exhaustive enumeration of all accepted code points (round trip real writer -> real guesser loader and real scorer loader, batched with bisection) plus Hypothesis property-based differential testing of trained rulesets across trainer counters, guesser tables, scorer tables, OMEN loaders and config.ini lists; re-training into a used directory, CRLF / unterminated files, numeric shapes of the probability column; utf-8-sig rulesets through the loaders that can read them",
+        technique="Exhaustive enumeration of all accepted code points (round trip real writer -> real guesser loader and real scorer loader, batched with bisection) plus Hypothesis property-based differential testing of trained rulesets across trainer counters, guesser tables, scorer tables, OMEN loaders and config.ini lists; re-training into a used directory, CRLF / unterminated files, numeric shapes of the probability column; utf-8-sig rulesets through the loaders that can read them; scale parts: lists of up to 160 001 lines, a training list of 42 000 distinct passwords",
         text=("Every one of the ~1.11 million code points the input filter accepts (and every byte of the single-byte encodings) is "
               "written at four positions by the real rules writer and must be read back unchanged, with the exact probability, by both "
               "real loaders - this sub-part is exhaustive. Generated training lists in five encodings are trained and every value, "
@@ -156,7 +156,7 @@ CHECKS = {
               "Exploration with an exhaustive sub-part."),
         design='4/C07'),
     'C11': dict(
-        technique="Hypothesis property-based 3-way differential testing (trainer's find_omen_level vs scorer's OmenScorer.parse vs guesser tables + real MarkovCracker membership) on rulesets produced by the real trainer, with generated and mutated candidate strings; the level PCFGPasswordScorer.parse reports for every candidate incl. e-mail / web-site strings; whole generator levels 0..12 against the reference enumeration over the loaded tables",
+        technique="Hypothesis property-based 3-way differential testing (trainer's find_omen_level vs scorer's OmenScorer.parse vs guesser tables + real MarkovCracker membership) on rulesets produced by the real trainer, with generated and mutated candidate strings; the level PCFGPasswordScorer.parse reports for every candidate incl. e-mail / web-site strings; whole generator levels 0..12 against the reference enumeration over the loaded tables; scale part: lists of 70 000 / 400 000 passwords",
         text=("Generated training lists (small alphabets, n-gram 2-5, several encodings) are trained; for training passwords, "
               "generator output and mutated candidates (out-of-alphabet characters at each position, lengths n-1, n, n+1, 21, 22, "
               "empty) the trainer's level, the scorer's level and the level by the guesser's loaded tables must be the same number "
